@@ -1,5 +1,5 @@
 (* Correspondence check for C05. *)
-From GV Require Import Base.Prelude Model.C03 Model.C04 Model.C05.
+From GV Require Export Base.Prelude Model.C03 Model.C04 Model.C05.
 
 Definition ev_pairs (atoms : list (list Z * list Z)) : list (Z * Z) :=
   map (fun r => (r_s r, r_d r)) (events_all 0 atoms).
